@@ -5,6 +5,9 @@ import XalanModel.Containers.XMapProofs
 import XalanModel.Containers.DequeProofs
 import XalanModel.Containers.XListProofs
 import XalanModel.Containers.PListProofs
+import XalanModel.Containers.PListClearProofs
+import XalanModel.Containers.PListAllocProofs
+import XalanModel.Containers.PListHistoryProofs
 import XalanModel.Containers.DOMStringProofs
 import XalanModel.Containers.DOMStringCompareProofs
 import XalanModel.Containers.ObjCacheProofs
@@ -737,6 +740,81 @@ theorem plist_freeNode_refines (h : PHeap α) (l : PL) (A B fs : List Nat) (m p 
     ∃ h' l', PL.freeNode h l m = some (h', l') ∧ PL.PWF h' l' (A ++ B) (m :: fs) ∧ l'.head = l.head ∧
       (∀ n, n ≠ m → h'.valOf n = h.valOf n) ∧ h'.nodes.length = h.nodes.length :=
   PL.freeNode_refines h l A B fs m p P' w hB
+
+/-- **constructNode on the heap, empty free chain**: the node comes from `allocate(1)` (the new address
+`h.nodes.length`), is linked before the position, every existing node keeps address, links and value, and the heap
+grows by exactly one node.  Proved by reduction to `plist_constructNode_refines` on the grown heap. -/
+theorem plist_constructNode_alloc_refines (h : PHeap α) (l : PL) (x : α) (A B : List Nat) (p : Nat) (P' : List Nat)
+    (w : PL.PWF h l (A ++ B) []) (hB : l.head :: B.reverse = P' ++ [p]) :
+    ∃ h' l', PL.constructNode h l x p = some (h', l', h.nodes.length) ∧
+      PL.PWF h' l' (A ++ h.nodes.length :: B) [] ∧ l'.head = l.head ∧
+      h'.valOf h.nodes.length = some x ∧ (∀ n, n < h.nodes.length → h'.valOf n = h.valOf n) ∧
+      h'.nodes.length = h.nodes.length + 1 :=
+  PL.constructNode_alloc_refines h l x A B p P' w hB
+
+/-- **the first insertion into a list without head node** (the lazy head of c994d6f; the position is the null
+iterator): head node and element node are allocated in this order and the list is well formed with exactly `x`. -/
+theorem plist_constructNode_first_refines (h : PHeap α) (l : PL) (x : α) (hh : l.head = 0) (hf : l.free = 0)
+    (hlen : h.nodes.length ≠ 0) :
+    ∃ h' l', PL.constructNode h l x 0 = some (h', l', h.nodes.length + 1) ∧
+      PL.PWF h' l' [h.nodes.length + 1] [] ∧ l'.head = h.nodes.length ∧
+      h'.valOf (h.nodes.length + 1) = some x ∧ (∀ n, n < h.nodes.length → h'.valOf n = h.valOf n) ∧
+      h'.nodes.length = h.nodes.length + 2 :=
+  PL.constructNode_first_refines h l x hh hf hlen
+
+/-- **clear() on the heap**, for a list of any length (induction over the linked nodes composing
+`plist_freeNode_refines` through the `freeNode(pos++.node())` loop): the executable pointer code succeeds, the ring
+is `head <-> head` again, every node is on the free chain with the last list node first (so it is reused
+first), in front of the previous free chain; the head node stays, no value outside the list is written and no
+node is allocated or given back (the heap keeps its size). -/
+theorem plist_clear_refines (h : PHeap α) (l : PL) (ns fs : List Nat) (w : PL.PWF h l ns fs) :
+    ∃ h' l', PL.clear h l = some (h', l') ∧ PL.PWF h' l' [] (ns.reverse ++ fs) ∧ l'.head = l.head ∧
+      (∀ n, n ∉ ns → h'.valOf n = h.valOf n) ∧ h'.nodes.length = h.nodes.length :=
+  PL.clear_refines h l ns fs w
+
+/-- non-vacuity of the `PWF` hypothesis: a concrete heap (head node 1, linked nodes 2 and 3 holding 7 and 8, one
+free node 4) is well formed, and `clear()` computes what `plist_clear_refines` states -/
+def plistSampleHeap : PHeap Int :=
+  ⟨[⟨none, 0, 0⟩, ⟨none, 3, 2⟩, ⟨some 7, 1, 3⟩, ⟨some 8, 2, 1⟩, ⟨none, 0, 0⟩]⟩
+def plistSampleList : PL := { head := 1, free := 4 }
+
+example : PL.PWF plistSampleHeap plistSampleList [2, 3] [4] where
+  head_ne := by decide
+  nodup := by decide
+  valid := by decide
+  fwd := by simp only [lseg]; decide
+  bwd := by simp only [lseg, List.reverse_cons, List.reverse_nil, List.nil_append, List.cons_append]; decide
+  freec := by simp only [lseg]; decide
+  vals := by decide
+
+example : (PL.clear plistSampleHeap plistSampleList).map
+    (fun r => (PL.toList r.1 r.2, PL.nodesOf r.1 r.2, PL.freeOf r.1 r.2, r.2.head)) = some ([], [], [3, 2, 4], 1) := by
+  decide
+
+/-- **XalanList at pointer level, history**: from the freshly constructed list object (no head node, no free
+chain) in any heap, every sequence of `push_back` / `push_front` / `pop_front` / `pop_back` / `clear()` calls
+that stays inside the `std::list` contract (`PL.pspecRun`: `pop_*` only on a non-empty list) runs through the
+executable pointer code (`PL.pstep`, the function `Driver/C20.lean` executes against the C++) without
+dereferencing a null / invalid pointer, and walking `next` from the head node then reads back exactly the
+specified sequence; the heap stays well formed (`PL.Rep`), so the statement composes over further calls.
+Induction over the call list composing `plist_constructNode_refines` (recycled node),
+`plist_constructNode_alloc_refines`, `plist_constructNode_first_refines`, `plist_freeNode_refines` and
+`plist_clear_refines`.  Not covered (stated in design/C20.md): positions inside the list (`insert` / `erase`
+through an iterator) and `splice` — those stay at the one-step theorems above and at the node-sequence level
+(`list_history_partial`). -/
+theorem plist_history (h : PHeap α) (hlen : h.nodes.length ≠ 0) (ops : List (PL.POp α)) (s : List α)
+    (hs : PL.pspecRun [] ops = some s) :
+    ∃ h' l', PL.prun h {} ops = some (h', l') ∧ PL.toList h' l' = s ∧ PL.Rep h' l' s :=
+  PL.plist_history h hlen ops s hs
+
+/-- non-vacuity: a call sequence inside the contract, with reuse of freed nodes and a `clear()` in the middle -/
+example : PL.pspecRun ([] : List Int)
+    [.pushBack 1, .pushFront 2, .popBack, .pushBack 3, .clear, .pushFront 4, .pushBack 5, .popFront] = some [5] := by
+  decide
+example : ((PL.prun ({} : PHeap Int) {}
+    [.pushBack 1, .pushFront 2, .popBack, .pushBack 3, .clear, .pushFront 4, .pushBack 5, .popFront]).map
+      fun r => PL.toList r.1 r.2) = some [5] := by
+  decide
 
 /-! ## XalanDOMString -/
 
